@@ -46,3 +46,84 @@ class VerifInterruptOperation(FloatOperation):
 
     def _process_logic(self, data):
         raise KeyboardInterrupt("verif: deliberate interrupt")
+
+
+class VerifAbort(BaseException):
+    """A BaseException subclass that is neither Exception nor KeyboardInterrupt/SystemExit."""
+
+
+class VerifSystemExitOperation(FloatOperation):
+    """Raises SystemExit (e.g. sys.exit() inside a processor)."""
+
+    def _process_logic(self, data):
+        raise SystemExit("verif: deliberate SystemExit")
+
+
+class VerifCustomAbortOperation(FloatOperation):
+    """Raises a custom BaseException subclass."""
+
+    def _process_logic(self, data):
+        raise VerifAbort("verif: deliberate custom abort")
+
+
+# ---- a data type holding a one-shot iterator (legal user data; reading it for tracing must not consume it) ----
+from semantiva.data_types import BaseDataType  # noqa: E402
+from semantiva.data_io import DataSource  # noqa: E402
+from semantiva.data_processors.data_processors import DataOperation  # noqa: E402
+
+
+class _OneShot:
+    """A one-shot iterator with a stable repr (so that content digests of it are reproducible)."""
+
+    def __init__(self, items):
+        self._it = iter(list(items))
+
+    def __iter__(self):
+        return self
+
+    def __next__(self):
+        return next(self._it)
+
+    def __repr__(self):
+        return "<one-shot stream>"
+
+
+class VerifStreamData(BaseDataType):
+    """Wraps a one-shot iterator of floats."""
+
+    def validate(self, data):
+        return True
+
+
+class VerifStreamSource(DataSource):
+    """Produces a VerifStreamData over a fresh generator of three floats."""
+
+    @classmethod
+    def _get_data(cls):
+        return VerifStreamData(_OneShot((1.0, 2.0, 3.0)))
+
+    @classmethod
+    def output_data_type(cls):
+        return VerifStreamData
+
+
+class VerifStreamSum(DataOperation):
+    """Sums the stream (consumes the iterator)."""
+
+    @classmethod
+    def input_data_type(cls):
+        return VerifStreamData
+
+    @classmethod
+    def output_data_type(cls):
+        return FloatDataType
+
+    def _process_logic(self, data):
+        return FloatDataType(float(sum(data.data)))
+
+
+class VerifSumItems(FloatOperation):
+    """Adds the sum of the context-provided iterable `items` to the data (consumes a one-shot iterator)."""
+
+    def _process_logic(self, data, items):
+        return FloatDataType(data.data + float(sum(items)))
